@@ -262,6 +262,23 @@ func c06(r *Report) {
 			e, ok := x.(*ssa.Extract)
 			return ok && e.Index == 0 && isCallValue(e.Tuple, "net.SplitHostPort")
 		}) && anyIn(sl, func(x ssa.Value) bool { return x == ssa.Value(cert.Params[1]) })
+		// exactly that: every value the name can take is the parameter itself or the host part
+		// SplitHostPort returned (no truncation, no other transformation), and the split is
+		// attempted for every name (a shortcut that decides by the look of the text whether there
+		// can be a port gets some ports wrong)
+		exact := true
+		for _, l := range resolveAll(name) {
+			e, isE := l.(*ssa.Extract)
+			if l == ssa.Value(cert.Params[1]) || (isE && e.Index == 0 && isCallValue(e.Tuple, "net.SplitHostPort")) {
+				continue
+			}
+			exact = false
+		}
+		always := false
+		if sp := plainCalls(cert, "net.SplitHostPort"); len(sp) > 0 {
+			always = g.PathTo([]ssa.Instruction{g.Entry()}, true, func(i ssa.Instruction) bool { _, y := isCall(i, "net.SplitHostPort"); return y }, func(i ssa.Instruction) bool { return i == ssa.Instruction(lookup) }) == nil
+		}
+		r.Decide("flow", "(*M/mitm.Config).cert: the name is the requested host, whole, with any port removed by net.SplitHostPort", exact && always, "name in {hostname, SplitHostPort(hostname).host}; the split lies on every path to the cache lookup", "the name the certificate is issued for is cut, transformed, or stripped of its port only for some inputs: the certificate does not verify for exactly the requested host (long names, five-digit ports)", lookup.Pos())
 		r.Decide("flow", "(*M/mitm.Config).cert: name is the parameter with its port stripped", strip, "SplitHostPort host or the original parameter", "the certificate name is not derived from the requested host with the port removed", lookup.Pos())
 		// subject CN
 		okCN := false
@@ -425,6 +442,7 @@ func c06(r *Report) {
 	})
 
 	r.Guard("C06.R7", "without a host name the handshake is refused: every GetCertificate callback tests the name for emptiness before issuing", func() {
+		tlsConfigFreshRule(r)
 		// the configuration a tunnel is served with is built from the MITM config in force at
 		// that moment: tls.Server takes the direct result of p.mitm.TLSForHost(...), not a
 		// config remembered from an earlier tunnel (which SetMITM would not replace)
@@ -652,3 +670,26 @@ func sliceLitContains(w *World, v ssa.Value, pred func(ssa.Value) bool) bool {
 func nilTestsLen(v ssa.Value) []nilTest { return nilTests(v) }
 
 func blockDominates(a, b *ssa.BasicBlock) bool { return a == b || a.Dominates(b) }
+
+// tlsConfigFreshRule: every tunnel gets a TLS configuration of its own: the
+// GetCertificate callback closes over the call's fallback host, so a
+// configuration kept from an earlier call answers with the earlier tunnel's
+// host when SNI is absent. Shared by C06.R7 and C05.R6.
+func tlsConfigFreshRule(r *Report) {
+	for _, fname := range []string{"Config.TLSForHost", "Config.TLS"} {
+		tf := r.W.Fn("mitm", fname)
+		if tf == nil || tf.Blocks == nil {
+			continue
+		}
+		r.Touch(tf)
+		freshCfg := len(returns(tf)) > 0
+		for _, ret := range returns(tf) {
+			for _, l := range resolveAll(ret.Results[0]) {
+				if a, isA := l.(*ssa.Alloc); !isA || a.Parent() != tf {
+					freshCfg = false
+				}
+			}
+		}
+		r.Decide("flow", "(*M/mitm."+fname+"): returns a configuration built in this call", freshCfg, "return &tls.Config{...}", "the TLS configuration is taken from a cache: its GetCertificate callback closes over the fallback host of the call that built it, so a later tunnel to another authority, whose client sends no SNI, is answered with a certificate for the earlier tunnel's host", tf.Pos())
+	}
+}
